@@ -4,6 +4,11 @@ Committed route (DESIGN.md 7 C20): FAULT ENUMERATION on the real API -- every fa
 statement injected at every eligible row / column of each base population, plus pairs of faults:
 the call must raise; every lossless dtype variant leaves all results unchanged and warns.
 Proved pieces:
+  P  the input checks _fail_if_pid_is_non_unique / _fail_if_foreign_keys_are_invalid /
+     _fail_if_group_variables_not_constant_within_groups by abstract execution with pandas
+     operations replaced by their contracts: "returns normally iff every documented condition
+     holds" for every mode (each pointer column x {dangling, self-reference}, every grouping);
+     _process_and_check_data calls all of them (call graph)
   K  sn_id_numpy: E2 verification conditions incl. the exceptional postcondition (normal return
      => all spouses agree on gemeinsam_veranlagt; ValueError => the current row and its spouse
      disagree), unbounded N, both row orders (re-discharged here; also part of C12)
@@ -39,6 +44,77 @@ def kernel_part(rep):
     ne, nd, bad = c12._bounded_couples(4)
     bad = [b for b in bad if b["kernel"] == "sn_id_numpy"]
     return lost, bad, ne
+
+
+def check_function_contracts(rep):
+    """P: the input checks of interface.py by abstract execution: pandas operations are replaced by
+    their contracts (is_unique, isin, all, any, groupby.transform('max')), the truth of each
+    recorded term is chosen by a mode; obligation: the function returns normally exactly in the
+    mode in which every documented condition holds, and it asks exactly the documented terms."""
+    from _gettsim import interface
+    from _gettsim.config import FOREIGN_KEYS, SUPPORTED_GROUPINGS
+    from vt.absnp import S, Elements
+
+    out = []
+
+    def run(fn, data):
+        try:
+            fn(data)
+            return "returned"
+        except ValueError:
+            return "ValueError"
+        except Exception as ex:  # noqa: BLE001
+            return type(ex).__name__
+
+    # ---- _fail_if_pid_is_non_unique
+    log = []
+    r_ok = run(interface._fail_if_pid_is_non_unique, {"p_id": S("p_id", {("is_unique", "p_id"): True}, log)})
+    r_dup = run(interface._fail_if_pid_is_non_unique, {"p_id": S("p_id", {("is_unique", "p_id"): False}, [])})
+    r_missing = run(interface._fail_if_pid_is_non_unique, {"hh_id": S("hh_id", {}, [])})
+    ok = r_ok == "returned" and r_dup == "ValueError" and r_missing == "ValueError" and ("is_unique", "p_id") in log
+    out.append(("P _fail_if_pid_is_non_unique returns normally iff p_id is present and p_id.is_unique", ok, f"{r_ok}/{r_dup}/{r_missing}, asked {log}"))
+    # ---- _fail_if_foreign_keys_are_invalid
+    want_ids = frozenset({Elements("p_id"), -1})
+    for present in ([], FOREIGN_KEYS[:1], FOREIGN_KEYS):
+        for bad_fk in [None, *present]:
+            for bad_kind in ("dangling", "self"):
+                if bad_fk is None and bad_kind == "self":
+                    continue
+                modes = {}
+                for fk in present:
+                    modes[("all", ("isin", fk, want_ids))] = not (fk == bad_fk and bad_kind == "dangling")
+                    modes[("any", ("eq", fk, "p_id"))] = fk == bad_fk and bad_kind == "self"
+                # any other term asked evaluates to "everything fine" only if it is one of the documented ones
+                log = []
+                data = {"p_id": S("p_id", modes, log), **{fk: S(fk, modes, log) for fk in present}}
+                r = run(interface._fail_if_foreign_keys_are_invalid, data)
+                expected = "returned" if bad_fk is None else "ValueError"
+                undocumented = [t for t in log if t not in modes]
+                ok = r == expected and not undocumented and (bad_fk is not None or all(k in log for k in modes))
+                out.append((f"P _fail_if_foreign_keys_are_invalid [{len(present)} pointer columns, fault: {bad_fk} {bad_kind if bad_fk else ''}] -> {expected}", ok, f"got {r}; asked {log[:4]}; undocumented {undocumented[:2]}"))
+    # ---- _fail_if_group_variables_not_constant_within_groups
+    for g in SUPPORTED_GROUPINGS:
+        for const in (True, False):
+            log = []
+            key = ("all", ("eq", ("group_transform", f"x_{g}", f"{g}_id", "max"), f"x_{g}"))
+            modes = {key: const}
+            data = {f"{g}_id": S(f"{g}_id", modes, log), f"x_{g}": S(f"x_{g}", modes, log), "y": S("y", modes, log)}
+            r = run(interface._fail_if_group_variables_not_constant_within_groups, data)
+            expected = "returned" if const else "ValueError"
+            ok = r == expected and key in log and all(t == key for t in log)
+            out.append((f"P _fail_if_group_variables_not_constant_within_groups [{g}, column constant within group: {const}] -> {expected}", ok, f"got {r}; asked {log[:3]}"))
+    # ---- _process_and_check_data calls all three on every accepted input kind (E3 call graph)
+    from vt import frame
+
+    an = frame.Analyzer(str(venv.SRC))
+    eff = an.effects.get(("_gettsim.interface", "_process_and_check_data"))
+    callees = {c[1] for c in eff.calls} if eff else set()
+    need = {"_fail_if_group_variables_not_constant_within_groups", "_fail_if_pid_is_non_unique", "_fail_if_foreign_keys_are_invalid", "_fail_if_duplicates_in_columns"}
+    out.append(("P _process_and_check_data calls the four input checks", need <= callees, f"calls {sorted(callees)}"))
+    for name, ok, detail in out:
+        rep.ob(name, "discharged" if ok else "refuted", "abstract-exec", 0, "src/_gettsim/interface.py:427-510", "check-contract", detail)
+    rep.functions |= {"src/_gettsim/interface.py:468 _fail_if_pid_is_non_unique", "src/_gettsim/interface.py:482 _fail_if_foreign_keys_are_invalid", "src/_gettsim/interface.py:436 _fail_if_group_variables_not_constant_within_groups", "src/_gettsim/interface.py:204 _process_and_check_data"}
+    return [o for o in out if not o[1]]
 
 
 def conversion_part(rep):
@@ -166,6 +242,7 @@ def run(tier="quick", seed=0, jobs=16):
     rep.assumptions = ["only raise / no-raise and values are contracted, never message texts (pandas 3 string dtype)", "fault classes are those named in the property statement; faults are injected one at a time at every eligible cell of the base populations, and in sampled pairs",
                        "sn_id_numpy is additionally proved (E2) incl. its exceptional postcondition"]
     lost, kbad, kn = kernel_part(rep)
+    pbad = check_function_contracts(rep)
     cn, cbad = conversion_part(rep)
     n_eval = kn + cn
     distinct = set()
@@ -247,6 +324,8 @@ def run(tier="quick", seed=0, jobs=16):
         rep.violation(f"coercion:{i}:{b['what'][:50]}", b["what"], b, True)
     for i, b in enumerate(cbad[:6]):
         rep.violation(f"conversion:{i}:{b[:60]}", f"convert_series_to_internal_type: {b}", {"what": b}, True)
+    for name, ok, detail in pbad[:4]:
+        rep.violation(f"check-contract:{name[:90]}", f"{name}: {detail}", {"obligation": name, "detail": detail}, failing_input_found=False)
     for b in kbad[:3]:
         rep.violation(f"sn_id_numpy:{b['got']}", f"sn_id_numpy on {b['inputs']}: {b['got']}, expected {b['expected']}", b, True)
     if lost and not kbad:
